@@ -377,7 +377,7 @@ CORPUS = [
     'Y = X\nZ = Y[-1]\nW = Z + Y', 'Y = X\n```\nfoo = 1\n```\nZ = W', '`x = 1`', '', 'Y = a < b > c', 'Y = 1 if{a}else 2', 'Y = X==Z',
     'Y = X\nY = X', 'Y = f(X) + g.h(Z)', '```\npass\n```\nY = X', 'Y = X\n`k = 1`', '```\nx = Y[t] + 1\nz = 2\n```\nY = X + Z', '`pass`', '```\npass\n```', 'Z==()', 'Y[=1]', 'Y = (X +\n  Z)', '(Y =\n X)', 'Y = X[ -1 ]+X[+1]',
     'S,D = X, Y[-1]', 'S,D = X, Y[-1]\nQ = S + D[-1]', 'A,B[1],C = X, Y, Z[1] + A[-1]', 'S,D = D[-1], S[-1]',     # tuple targets: every target is a node with all edges
-    'Y = X; Z = Y', "Y = X if S == 'W' else Z", 'Y = X if Z > 10 else W[-1]', 'Y = max(X, 3) + (W if Z < 1.5 else C[-2])',
+    'Y = X; Z = Y', 'Y = Z = C + 1', "Y = X if S == 'W' else Z", 'Y = X if Z > 10 else W[-1]', 'Y = max(X, 3) + (W if Z < 1.5 else C[-2])',
     'b = {as} * X\nY = <if> + b[-1]',     # terms named like reserved words (C14|fixed-point|reserved-word-name): the graph is still exact
 ]
 
@@ -757,6 +757,19 @@ def _subset_reference(script):
     return {k: v for k, v in ref.items() if k.split('[')[0] not in spoiled}
 
 
+def _second_assignment(script):
+    """input shape of the finding assignment-without-lhs-node: a statement holding a second assignment — after ";" or chained (`Y = Z = C`)"""
+    bare = re.sub(r'\'[^\'\n]*\'|"[^"\n]*"|`[^`\n]*`', '', script)
+    bare = re.sub(r'<\s*([A-Za-z_]\w*)\s*>', r'\1', bare)          # an error term <NAME> is no comparison
+    if ';' in bare:
+        return True
+    for line in bare.split('\n'):
+        line = re.sub(r'\[[^\]]*\]', '', line.split('#', 1)[0])
+        if len(re.findall(r'(?<![=!<>])=(?!=)', line)) >= 2:
+            return True
+    return False
+
+
 def _in_string_literal(script, name):
     """does `name` occur inside a quoted string of the script that is no index label (not directly after '[')?"""
     for m in re.finditer(r'(?<!\[)(?<!\[ )(\'[^\'\n]*\'|"[^"\n]*")', script):
@@ -865,10 +878,10 @@ def oracle(case, obs):
         semicolon = False
         for nm, k in ent.get('writes', []):
             if term_id(nm, k) not in ent.get('targets', [lhs]):
-                semicolon = semicolon or ';' in re.sub(r'\'[^\'\n]*\'|"[^"\n]*"|`[^`\n]*`', '', case['s'])
-                if ';' in re.sub(r'\'[^\'\n]*\'|"[^"\n]*"|`[^`\n]*`', '', case['s']):
-                    fails.append({'sig': 'C20|assignment-without-lhs-node|semicolon',
-                                  'what': 'the code of %s also assigns %s, which is no left-hand term of the equation %r (a second statement after ";") — script %s'
+                semicolon = semicolon or _second_assignment(case['s'])
+                if _second_assignment(case['s']):
+                    fails.append({'sig': 'C20|assignment-without-lhs-node|second-assignment',
+                                  'what': 'the code of %s also assigns %s, which is no left-hand term of the equation %r (a second assignment after ";" or chained "=") — script %s'
                                           % (lhs, term_id(nm, k), ent.get('eq'), json.dumps(case['s'])[:160])})
                 else:
                     add('assignment-without-lhs-node', 'the code of %s also assigns %s, which is no left-hand term of its equation' % (lhs, term_id(nm, k)))
@@ -886,7 +899,7 @@ def oracle(case, obs):
                 is_cond = cond.get(lhs, True)
             else:
                 # outside the generator: a conditional expression, and / or short-circuit, a verbatim fragment need not read every term
-                is_cond = re.search(r'\b(?:if|else|and|or|not|lambda|for|in|is)\b|`', ent.get('eq') or 'if') is not None
+                is_cond = re.search(r'\b(?:if|else|and|or|not|lambda|for|in|is)\b|`|[<>]|[=!]=', (ent.get('eq') or 'if').split('=', 1)[-1]) is not None      # chained comparisons short-circuit too
             if (not any(seen)) if is_cond else (not all(seen)):
                 if is_cond and _in_string_literal(case['s'], key[0]) and not any(seen):
                     fails.append({'sig': 'C20|edge-not-read|term-inside-string-literal',
@@ -896,7 +909,7 @@ def oracle(case, obs):
                 if is_cond:
                     continue        # a branch none of the data vectors selects: nothing is claimed
                 if semicolon:
-                    continue        # the term is ASSIGNED by a second statement after ";": reported above as assignment-without-lhs-node|semicolon
+                    continue        # the term is ASSIGNED by a second statement after ";": reported above as assignment-without-lhs-node|second-assignment
                 add('edge-not-read', 'edge %s -> %s but the cell is not read when the equation is executed' % (a, lhs))
     return fails
 
